@@ -283,6 +283,15 @@ def run_fuzz(prop, fz, seed, work):
     writes a JSON replay and exits non-zero on a violation.  A process that dies without a replay file is a
     harness problem of that process (counted), not a violation."""
     import subprocess
+    # atheris is installed into /verif/.deps on demand (offline wheelhouse); without it the campaign is skipped
+    probe = subprocess.run([sys.executable, "-c", "import atheris"], env=dict(os.environ, PYTHONPATH=env.DEPS), capture_output=True)
+    if probe.returncode != 0:
+        os.makedirs(env.DEPS, exist_ok=True)
+        subprocess.run([sys.executable, "-m", "pip", "install", "--quiet", "--no-index", "--find-links", env.WHEELS, "--target", env.DEPS,
+                        "atheris"], capture_output=True)
+        probe = subprocess.run([sys.executable, "-c", "import atheris"], env=dict(os.environ, PYTHONPATH=env.DEPS), capture_output=True)
+        if probe.returncode != 0:
+            return {"skipped": "atheris not installable offline", "violations": []}
     nproc = int(fz.get("procs", 8))
     runs = int(os.environ.get("VERIF_FUZZ_RUNS", fz["runs"])) // nproc
     script = os.path.join(VERIF, fz["script"])
